@@ -1,4 +1,5 @@
 import ArcaModel.Lemmas.Units
+import ArcaModel.Lemmas.UnitsFloat
 /-
   Property C16: unit formatting and parsing are inverse; parsing never returns a wrong number.
 
@@ -17,11 +18,23 @@ import ArcaModel.Lemmas.Units
                                captured digit strings times their multipliers (never a wrapped value);
     * `C16_reject`             a successful parse implies that the trimmed input is a string of the
                                unit grammar and the result is its value: every other string is an error.
-  NOT proved (stated honestly): the float half of C16 ("within floating-point tolerance" for
-  `FormatShortFloat/FormatLongFloat` followed by `ParseFloat`). `fmt.Sprintf("%f")`,
-  `strconv.ParseFloat` and the float arithmetic of the formatter are externals of the model; that
-  half is checked by the harness oracle (`harness units`, stream "floats") and, for `ParseFloat`,
-  by the model correspondence (op UNITS_PARSEF) only.
+  Float parser, for ALL definitions, ALL strings and EVERY externals table `x : Ext`
+  (`x.parseFloat` = `strconv.ParseFloat`):
+    * `C16_float_of_int`       `ParseInt s = n` implies `ParseFloat s = float64(n)` (no
+                               representability assumption: the code keeps the exact int64 sum);
+    * `C16_float_no_dot`       an input without '.' : `ParseFloat s = (ParseInt s).map float64`;
+    * `C16_float_reject`       a successful `ParseFloat` implies that the trimmed input is a string of
+                               the float unit grammar (base count `digits` or `digits.digits`) and the
+                               result is exactly `float64(exact integer sum)` resp. the left-to-right
+                               float accumulator plus `strconv(base) * float64(1)`; everything else,
+                               and every integer part beyond int64, is an error;
+    * `C16_float_grammar`      (needs `WFu`) conversely every string of the float grammar is accepted
+                               under exactly those conditions, with that value.
+  NOT proved (stated honestly): the FORMATTER side of the float clause - that
+  `FormatShortFloat/FormatLongFloat` followed by `ParseFloat` is within floating-point tolerance of
+  the original, and any bound on the rounding error of the `F64.add/F64.mul` expression above.
+  `fmt.Sprintf("%f")`, `strconv.ParseFloat` and the float arithmetic of the formatter are externals of
+  the model; that part is checked by the harness oracle (`harness units`, stream "floats") only.
 -/
 namespace Arca
 
@@ -216,9 +229,10 @@ theorem C16_reject (u : Units) (s : String) (v : Int) (h : u.parseInt s = some v
     property for a well-formed definition - both round trips, the grammar with exact value or
     rejection on overflow, and rejection of every string outside the grammar.
     MISSING: the float clause ("within floating-point tolerance" for `FormatShortFloat` /
-    `FormatLongFloat` followed by `ParseFloat`); `%f`, `strconv.ParseFloat` and the formatter's float
-    arithmetic are externals of the model, so that clause is covered by the harness oracle and the
-    `UNITS_PARSEF` correspondence only. -/
+    `FormatLongFloat` followed by `ParseFloat`). Its parser half is characterised exactly by
+    `C16_float_of_int`, `C16_float_reject` and `C16_float_grammar` below; what remains unproved is
+    the formatter half and the numeric tolerance: `%f`, `strconv.ParseFloat` and the formatter's
+    float arithmetic are externals of the model, covered by the harness oracle only. -/
 theorem C16_partial (u : Units) (hu : WFu u) :
     (∀ n : Int, 0 ≤ n → inInt64 n = true →
       u.parseInt (u.formatShortInt n) = some n ∧ u.parseInt (u.formatLongInt n) = some n) ∧
@@ -237,6 +251,168 @@ theorem C16_partial (u : Units) (hu : WFu u) :
   intro s v h
   obtain ⟨ps, bp, h1, h2, h3, h4, _, h6, h7⟩ := C16_reject u s v h
   exact ⟨ps, bp, h1, h2, h3, h4, h6, h7⟩
+
+/-! ### the float parser (all definitions, all strings, all externals) -/
+
+/-- **C16 (ParseFloat agrees with ParseInt).** Whatever the definition, the `strconv.ParseFloat`
+    table and the input: if `ParseInt` returns `n`, `ParseFloat` returns exactly `float64(n)` - the
+    exact integer sum, rounded once. No representability assumption is needed: the code keeps the
+    exact int64 sum as long as no fraction occurs and converts at the end. -/
+theorem C16_float_of_int (u : Units) (x : Ext) (s : String) (n : Int) (h : u.parseInt s = some n) :
+    u.parseFloat x s = some (F64.ofInt n) := by
+  rcases parseFloat_split u x s with ⟨_, _, h2⟩ | ⟨_, ⟨_, _, h2⟩ | ⟨caps, b, _, ⟨_, h2⟩ | ⟨_, h2, _⟩⟩⟩
+  · rw [h] at h2; cases h2
+  · rw [h] at h2; cases h2
+  · rw [h2, h]; rfl
+  · rw [h] at h2; cases h2
+
+/-- **C16 (ParseFloat without a decimal point is ParseInt).** Explicit decidable hypothesis: the
+    input contains no '.'. Then every captured count is an integer literal and `ParseFloat` succeeds
+    exactly when `ParseInt` does, with `float64` of its result. -/
+theorem C16_float_no_dot (u : Units) (x : Ext) (s : String) (hs : s.toList.contains '.' = false) :
+    u.parseFloat x s = (u.parseInt s).map F64.ofInt := by
+  rcases parseFloat_split u x s with ⟨_, h1, h2⟩ | ⟨_, ⟨_, h1, h2⟩ | ⟨caps, b, hm, ⟨_, h2⟩ | ⟨hd, _, _⟩⟩⟩
+  · rw [h1, h2]; rfl
+  · rw [h1, h2]; rfl
+  · exact h2
+  · exfalso
+    have := mem_of_mem_skipWS_trimSpace (dot_mem_of_capture _ _ _ caps b (skipWS_noWSHead _) hm hd)
+    rw [List.contains_iff_mem.mpr this] at hs
+    cases hs
+
+/-- **C16 (ParseFloat: no wrong number, everything else rejected).** Whatever the definition, the
+    `strconv.ParseFloat` table `x` and the input: if `ParseFloat` returns `f`, then the input with its
+    surrounding white space removed IS a string of the float unit grammar - one optional
+    `digits ws* name ws*` token per multiplier unit in sorted order (`PiecesOK`), then the optional
+    base token whose count is `digits` or `digits.digits` (`BaseOKF`), at least one token - the exact
+    integer sum of the multiplier tokens fits int64, and `f` is exactly:
+    * no fraction in the base count: `float64` of the exact integer sum `Σ count × multiplier`
+      (which fits int64 and is what `ParseInt` returns);
+    * a fraction in the base count: the float accumulator of the multiplier tokens - left to right
+      from 0, `+ float64(count × multiplier)` with the exact int64 product (`capFSum`) - plus
+      `strconv.ParseFloat(base count) × float64(1)`.
+    So the only roundings are those of `float64(int64)`, IEEE `+`/`×` and strconv: never a wrong
+    token, a skipped token, a wrong multiplier or a reordering; every string outside the grammar,
+    and every string whose integer part leaves int64, is an error.
+    (The code multiplies integer counts exactly in int64 - it does NOT compute
+    `ParseFloat(count) × float64(multiplier)` for them - and this is what is stated.) -/
+theorem C16_float_reject (u : Units) (x : Ext) (s : String) (f : Nat)
+    (h : u.parseFloat x s = some f) :
+    ∃ ps bp, PiecesOK ((sortDesc u.mults).map (·.2.all)) ps ∧ BaseOKF u.base.all bp ∧
+      skipWS (trimSpace s.toList) = renderAll ps bp ∧ renderAll ps bp ≠ [] ∧
+      skipWS (trimSpace s.toList) = trimSpace s.toList ∧
+      inInt64 (capSum (ps.map capOf) ((sortDesc u.mults).map (·.1))) = true ∧
+      (((capOf bp).toList.contains '.' = false ∧ BaseOK u.base.all bp ∧
+          inInt64 (renderTotal ps bp ((sortDesc u.mults).map (·.1))) = true ∧
+          u.parseInt s = some (renderTotal ps bp ((sortDesc u.mults).map (·.1))) ∧
+          f = F64.ofInt (renderTotal ps bp ((sortDesc u.mults).map (·.1)))) ∨
+       ((capOf bp).toList.contains '.' = true ∧ u.parseInt s = none ∧
+          ∃ fb, x.parseFloat (capOf bp) = some fb ∧
+            f = F64.add (capFSum (ps.map capOf) ((sortDesc u.mults).map (·.1)) 0)
+                  (F64.mul fb (F64.ofInt 1)))) := by
+  rcases parseFloat_split u x s with ⟨_, h1, _⟩ | ⟨hne, ⟨_, h1, _⟩ | ⟨caps, b, hm, hcase⟩⟩
+  · rw [h] at h1; cases h1
+  · rw [h] at h1; cases h1
+  · obtain ⟨hsk, hnn⟩ := skipWS_trimSpace s.toList hne
+    obtain ⟨ps, bp, h1, h2, h3, h4, h5⟩ :=
+      matchGroups_soundF _ _ _ caps b (skipWS_noWSHead _) hm
+    obtain ⟨hc, _, _⟩ := matchGroups_cap _ _ _ _ _ hm
+    have hne' : renderAll ps bp ≠ [] := by rw [← h3, hsk]; exact hnn
+    rcases hcase with ⟨hd, hpf⟩ | ⟨hd, hpi, hpf⟩
+    · -- integer base count: ParseFloat = float64(ParseInt)
+      rw [h] at hpf
+      cases hn : u.parseInt s with
+      | none => rw [hn] at hpf; cases hpf
+      | some n =>
+        rw [hn] at hpf
+        have hf : f = F64.ofInt n := Option.some.inj hpf
+        obtain ⟨caps', b', hm', _, _, _, hv, hin⟩ := C16_no_wrong_number u s n hn
+        rw [hm] at hm'
+        obtain ⟨e1, e2⟩ := Prod.mk.inj (Option.some.inj hm')
+        subst e1; subst e2
+        have hn' : n = renderTotal ps bp ((sortDesc u.mults).map (·.1)) := by
+          rw [hv, h4, h5]; rfl
+        have hgo : ∃ acc, Units.parseInt.go caps ((sortDesc u.mults).map (·.1)) 0 = some acc := by
+          rw [parseInt_eq, hne, hm] at hn
+          simp only [Bool.false_eq_true, if_false] at hn
+          cases hg : Units.parseInt.go caps ((sortDesc u.mults).map (·.1)) 0 with
+          | none => rw [hg] at hn; cases hn
+          | some acc => exact ⟨acc, rfl⟩
+        obtain ⟨acc, hg⟩ := hgo
+        have hacc := go_exact _ _ 0 acc hc hg
+        have hacc' := go_inInt64 _ _ 0 acc (by decide) hg
+        refine ⟨ps, bp, h1, h2, h3, hne', hsk, ?_, Or.inl ⟨?_, ?_, ?_, ?_, ?_⟩⟩
+        · rw [← h4, ← Int.zero_add (capSum caps _), ← hacc]; exact hacc'
+        · rw [← h5]; exact hd
+        · exact h2.toInt (by rw [← h5]; exact hd)
+        · rw [← hn']; exact hin
+        · rw [← hn']
+        · rw [← hn']; exact hf
+    · -- fractional base count
+      rw [h] at hpf
+      cases hg : Units.parseInt.go caps ((sortDesc u.mults).map (·.1)) 0 with
+      | none => rw [hg] at hpf; cases hpf
+      | some acc =>
+        rw [hg] at hpf
+        have hacc := go_exact _ _ 0 acc hc hg
+        have hacc' := go_inInt64 _ _ 0 acc (by decide) hg
+        cases hx : x.parseFloat b with
+        | none => rw [hx] at hpf; cases hpf
+        | some fb =>
+          rw [hx] at hpf
+          refine ⟨ps, bp, h1, h2, h3, hne', hsk, ?_, Or.inr ⟨?_, hpi, fb, ?_, ?_⟩⟩
+          · rw [← h4, ← Int.zero_add (capSum caps _), ← hacc]; exact hacc'
+          · rw [← h5]; exact hd
+          · rw [← h5]; exact hx
+          · rw [← h4]; exact Option.some.inj hpf
+
+/-- **C16 (float grammar, well-formed definitions).** A string of the float unit grammar - one
+    optional `digits ws* name ws*` token per multiplier unit in sorted order, then the optional base
+    token whose count is `digits` or `digits.digits`, at least one token, surrounded by any Unicode
+    white space - is accepted by `ParseFloat` exactly when the exact integer sum of the multiplier
+    tokens fits int64 (and, without a fraction, the whole sum does; with a fraction, strconv accepts
+    the base count), and the result is then the value described in `C16_float_reject`. -/
+theorem C16_float_grammar (u : Units) (hu : WFu u) (x : Ext) (lead trail : List Char)
+    (ps : List (Option Piece)) (bp : Option Piece) (hlead : AllUni lead) (htrail : AllUni trail)
+    (hps : PiecesOK ((sortDesc u.mults).map (·.2.all)) ps) (hbp : BaseOKF u.base.all bp)
+    (hne : renderAll ps bp ≠ []) :
+    u.parseFloat x (String.ofList (lead ++ (renderAll ps bp ++ trail))) =
+      if capSum (ps.map capOf) ((sortDesc u.mults).map (·.1)) ≤ maxInt64 then
+        if (capOf bp).toList.contains '.' = true then
+          (x.parseFloat (capOf bp)).map fun fb =>
+            F64.add (capFSum (ps.map capOf) ((sortDesc u.mults).map (·.1)) 0)
+              (F64.mul fb (F64.ofInt 1))
+        else if renderTotal ps bp ((sortDesc u.mults).map (·.1)) ≤ maxInt64
+          then some (F64.ofInt (renderTotal ps bp ((sortDesc u.mults).map (·.1)))) else none
+      else none := by
+  obtain ⟨hwf, hend, hms⟩ := hu.groupsWF
+  obtain ⟨hne', hm⟩ := matchGroups_of_renderF _ _ _ lead trail ps bp hwf hend
+    (String.toList_ofList (l := lead ++ (renderAll ps bp ++ trail))) hlead htrail hps hbp hne
+  have hA := capSum_nonneg (ps.map capOf) _ hms
+  have hV := capVal_nonneg (capOf bp)
+  have hz : (0 : Int) ≤ maxInt64 := by unfold maxInt64; omega
+  rcases parseFloat_split u x (String.ofList (lead ++ (renderAll ps bp ++ trail))) with
+    ⟨h0, _, _⟩ | ⟨_, ⟨h0, _, _⟩ | ⟨caps, b, hm', hcase⟩⟩
+  · rw [hne'] at h0; cases h0
+  · rw [hm] at h0; cases h0
+  · rw [hm] at hm'
+    obtain ⟨e1, e2⟩ := Prod.mk.inj (Option.some.inj hm')
+    subst e1; subst e2
+    rcases hcase with ⟨hd, hpf⟩ | ⟨hd, _, hpf⟩
+    · have hd' : ¬ ((capOf bp).toList.contains '.' = true) := by rw [hd]; simp
+      rw [hpf, C16_grammar u hu lead trail ps bp hlead htrail hps (hbp.toInt hd) hne]
+      simp only [hd']
+      unfold renderTotal
+      by_cases h1 : capSum (ps.map capOf) ((sortDesc u.mults).map (·.1)) ≤ maxInt64
+      · simp only [h1, if_true]
+        by_cases h2 : capSum (ps.map capOf) ((sortDesc u.mults).map (·.1)) + capVal (capOf bp) ≤ maxInt64
+          <;> simp [h2]
+      · have : ¬ (capSum (ps.map capOf) ((sortDesc u.mults).map (·.1)) + capVal (capOf bp) ≤ maxInt64) := by
+          omega
+        simp [h1, this]
+    · rw [hpf, go_nonneg _ _ 0 (caps_allDigits hps) hms (by omega) hz]
+      simp only [Int.zero_add, hd, if_true]
+      by_cases h1 : capSum (ps.map capOf) ((sortDesc u.mults).map (·.1)) ≤ maxInt64 <;> simp [h1]
 
 /-! ### non-vacuity: the five built-in definitions are well-formed; concrete evaluations -/
 
@@ -301,6 +477,70 @@ example : UnitDurationSeconds.parseInt "9223372036854775808s" = none := by decid
 example : UnitDurationSeconds.parseInt "9223372036854775807s" = some 9223372036854775807 := by decide
 example : UnitDurationSeconds.parseInt "106751991167301d" = none := by decide
 
+
+/-! ### float parser: non-vacuity and concrete evaluations -/
+
+/-- hypothesis of `C16_float_of_int` met: "1H30m" in seconds, for every externals table -/
+example (x : Ext) : UnitDurationSeconds.parseFloat x "1H30m" = some (F64.ofInt 5400) :=
+  C16_float_of_int UnitDurationSeconds x "1H30m" 5400 (by decide)
+example : F64.ofInt 5400 = 0x40B5180000000000 := by decide
+/-- hypothesis of `C16_float_no_dot` met -/
+example (x : Ext) : UnitDurationSeconds.parseFloat x "1H30m" =
+    (UnitDurationSeconds.parseInt "1H30m").map F64.ofInt :=
+  C16_float_no_dot UnitDurationSeconds x "1H30m" (by decide)
+example (x : Ext) : UnitDurationSeconds.parseFloat x "9223372036854775808s" = none := by
+  rw [C16_float_no_dot UnitDurationSeconds x _ (by decide)]; decide
+
+/-- an externals table that knows "1.5" (= 0x3FF8000000000000) -/
+def extOneAndHalf : Ext :=
+  { parseFloat := fun s => if s == "1.5" then some 0x3FF8000000000000 else none
+    fmtF := fun _ => ""
+    reCompiles := fun _ => false
+    reMatch := fun _ _ => false }
+
+/-- hypothesis of `C16_float_reject` met with a fraction: 61.5 = 0x404EC00000000000 -/
+example : UnitDurationSeconds.parseFloat extOneAndHalf "1m1.5s" = some 0x404EC00000000000 := by
+  decide +kernel
+/-- a fraction in front of a multiplier unit is outside the grammar -/
+example : UnitDurationSeconds.parseFloat extOneAndHalf "1.5m" = none := by decide
+
+/-- the hypotheses of `C16_float_grammar` are satisfiable with a fractional base count: "1m1.5s" -/
+example (x : Ext) : UnitDurationSeconds.parseFloat x
+    (String.ofList ([] ++ (renderAll [none, none, some ⟨['1'], [], ['m'], []⟩]
+      (some ⟨['1', '.', '5'], [], ['s'], []⟩) ++ []))) =
+    (x.parseFloat "1.5").map fun fb => F64.add (F64.add 0 (F64.ofInt 60)) (F64.mul fb (F64.ofInt 1)) := by
+  have hgs : (sortDesc UnitDurationSeconds.mults).map (·.2.all) =
+      [["d", "d", "day", "days"], ["H", "H", "hour", "hours"], ["m", "m", "minute", "minutes"]] := by
+    decide
+  have hms : (sortDesc UnitDurationSeconds.mults).map (·.1) = [86400, 3600, 60] := by decide
+  have h := C16_float_grammar UnitDurationSeconds (by decide) x [] []
+    [none, none, some ⟨['1'], [], ['m'], []⟩] (some ⟨['1', '.', '5'], [], ['s'], []⟩)
+    (fun c hc => by cases hc) (fun c hc => by cases hc)
+    (by
+      rw [hgs]
+      refine .cons (fun p hp => by cases hp) (.cons (fun p hp => by cases hp) (.cons ?_ .nil))
+      intro p hp; cases hp
+      exact ⟨by simp, by intro c hc; simp at hc; subst hc; decide, allWS_nil, allWS_nil, "m", by simp,
+        by decide⟩)
+    (by
+      intro p hp; cases hp
+      refine ⟨Or.inr ⟨['1'], ['5'], rfl, by simp, ?_, by simp, ?_⟩, allWS_nil, allWS_nil,
+        Or.inr ⟨"s", by simp [UnitDurationSeconds, UnitNames.all], by decide⟩⟩
+      · intro c hc; simp at hc; subst hc; decide
+      · intro c hc; simp at hc; subst hc; decide)
+    (by simp [renderAll, renderOpt, Piece.render])
+  rw [h, hms]
+  have h1 : capSum (List.map capOf [none, none, some (⟨['1'], [], ['m'], []⟩ : Piece)]) [86400, 3600, 60] = 60 := by
+    decide
+  have h2 : (capOf (some (⟨['1', '.', '5'], [], ['s'], []⟩ : Piece))).toList.contains '.' = true := by
+    decide
+  have h3 : capFSum (List.map capOf [none, none, some (⟨['1'], [], ['m'], []⟩ : Piece)]) [86400, 3600, 60] 0 =
+      F64.add 0 (F64.ofInt 60) := by
+    decide +kernel
+  have h4 : capOf (some (⟨['1', '.', '5'], [], ['s'], []⟩ : Piece)) = "1.5" := by decide
+  rw [h1, h2, h3, h4]
+  simp [maxInt64]
+
 end Arca
 
 #print axioms Arca.C16_roundtrip_short
@@ -310,3 +550,7 @@ end Arca
 #print axioms Arca.C16_no_wrong_number
 #print axioms Arca.C16_reject
 #print axioms Arca.C16_partial
+#print axioms Arca.C16_float_of_int
+#print axioms Arca.C16_float_no_dot
+#print axioms Arca.C16_float_reject
+#print axioms Arca.C16_float_grammar
